@@ -306,8 +306,12 @@ let run_y args =
                    let buf = Buffer.create 64 in dump_green strs buf g';
                    let txt = show_text (gtext static_text strs g') in
                    let (all, rsf) = descendants g' false [] [] in
-                   Printf.sprintf "%s text=%s ranges=%s orig_unchanged=1" (Buffer.contents buf) txt
-                     (String.concat "," (List.map (show_pos g' rsf) all)))))))
+                   let fresh = rebuild g' in
+                   let b x = if x then "1" else "0" in
+                   let hash_of = function GNode (_, _, _, h, _) -> Some h | GTok _ -> None in
+                   Printf.sprintf "%s text=%s ranges=%s orig_unchanged=1 fresh=%s%s" (Buffer.contents buf) txt
+                     (String.concat "," (List.map (show_pos g' rsf) all))
+                     (b (geq g' fresh && geq fresh g')) (b (hash_of g' = hash_of fresh)))))))
   | _ -> "BAD-CASE"
 
 (* `Q <events1> / <events2>` (C11) *)
